@@ -8,7 +8,6 @@
 
 use crate::bcodec::bencoder::BEncoder;
 use crate::bcodec::bvalue::BValue;
-use crate::bcodec::raw_finder::RawFinder;
 use crate::constants::{HASH_SIZE, PIECE_LENGTH};
 use crate::hashmap;
 use crate::Error;
@@ -298,7 +297,7 @@ impl Metainfo {
     }
 
     fn calculate_hash(data: &[u8]) -> Result<[u8; HASH_SIZE], Error> {
-        if let Some(info) = DeepFinder::find_first("4:info", data) {
+        if let Some(info) = DeepFinder::find_top_level("4:info", data) {
             let mut hasher = sha1_smol::Sha1::new();
             hasher.update(info.as_ref());
             return Ok(hasher.digest().bytes());
